@@ -102,7 +102,8 @@ class SimulatedExecutionEnvironment(ExecutionEnvironment):
 
         for action in problem.actions:
             if isinstance(action, up.model.contingent.sensing_action.SensingAction):
-                # Create a dummy action with no effects instead of a sensing action
+                # Create a plain action with the same preconditions and effects
+                # (but no observations) instead of a sensing action
                 params = OrderedDict({p.name: p.type for p in action.parameters})
                 dummy = up.model.InstantaneousAction(
                     action.name,
@@ -111,6 +112,10 @@ class SimulatedExecutionEnvironment(ExecutionEnvironment):
                 )
                 for precond in action.preconditions:
                     dummy.add_precondition(precond)
+                for effect in action.effects:
+                    dummy._add_effect_instance(effect.clone())
+                if action.simulated_effect is not None:
+                    dummy.set_simulated_effect(action.simulated_effect)
                 deterministic_problem.add_action(dummy)
             else:
                 deterministic_problem.add_action(action.clone())
